@@ -406,7 +406,10 @@ class Spectrum:
         else:
             spectrum = self
 
-        interp = scipy.interpolate.interp1d(spectrum.wave, spectrum.value, kind=method,
+        # interpolate on floating point wavelengths (unsigned integer grids wrap
+        # around inside the interpolator)
+        interp = scipy.interpolate.interp1d(np.asarray(spectrum.wave, dtype=float),
+                                            spectrum.value, kind=method,
                                             copy=False, bounds_error=False,
                                             fill_value=fill_value)
 
